@@ -60,9 +60,10 @@ def stretched_gates(gates, *, suffix=None, update=False):
             name=new_name, parameters=parameters, ideal_unitary=ideal_unitary
         )
 
-        new_gates[new_name] = new_gate
+        # Without a suffix the stretched gate keeps the name of its parent
+        new_gates[new_gate.name] = new_gate
         if add_idle:
-            new_name = name + suffix
+            new_name = name + suffix if suffix else name
             new_gate = IdleGateDefinition(new_gate, name=new_name)
             new_gates[new_name] = new_gate
 
